@@ -102,6 +102,8 @@ def gen_plan(rng, tier="quick"):
         recipe["std_attrs"] = True
     if rng.random() < 0.08:
         recipe["scalar_coord"] = True
+    if rng.random() < 0.15:
+        recipe["time_irregular"] = True       # gapped / unevenly sampled records
     op = O.gen_op(rng, recipe, pool)
     if op["m"] == "reconstruct" and tier != "thorough":
         op = O.gen_op(rng, recipe, "stats")       # the three-stage pipeline costs 10-60 s per run: thorough tier only
